@@ -14,7 +14,7 @@ RULE = ('Hypothesis-generated operation programs (0-10 steps plus bursts of up t
         'bodies, raising bodies, raising operations, 2-3 worker threads with thread-private output aliases; values from '
         'the faithful domain, objects-without-aliasing and aliasing-without-list-state families) are built into real '
         'classes with the real decorators, recorded once, stored and fetched through a cassette in {in-memory, file, '
-        'S3/"", S3/"p/q", async wrapper over in-memory}, and replayed (playback function builds the instance directly '
+        'S3/"", S3/"p/q", async wrapper over in-memory, async wrapper over slow storage}, and replayed (playback function builds the instance directly '
         'or resolves the class from the recording metadata). Oracle (round trip): every call site gets the same value '
         '(==, same type) or the same exception type as live; same operation result; playback_outputs == '
         'recorded_outputs as key->value maps without duplicate keys; no wrapped body executes during replay. '
@@ -27,7 +27,7 @@ ASSUMPTIONS = ['an input is a function of its alias and captured arguments (gene
                'worker threads use thread-private output aliases; thread interleavings are whatever the OS gives',
                'exceptions keep only their type through the serializer']
 
-CASSETTES = ['memory', 'memory', 'file', 's3', 's3p', 'async']
+CASSETTES = ['memory', 'memory', 'file', 's3', 's3p', 'async', 'async-slow']
 
 
 def open_cassette(kind):
@@ -41,6 +41,15 @@ def open_cassette(kind):
         a = AsyncRecordOnlyTapeCassette(z.cassettes[0], flush_interval=0.001)
         a.start()
         return z, a, z.cassettes[0]
+    if kind == 'async-slow':
+        # asynchronous wrapper over storage that takes a moment per write: flush rounds overlap with the operation
+        from playback.tape_cassettes.asynchronous.async_record_only_tape_cassette import AsyncRecordOnlyTapeCassette
+        from pbt.slowstore import SlowCassette
+        z = zoo.Zoo(kinds=()).__enter__()
+        wrapped = SlowCassette(0.0004)
+        a = AsyncRecordOnlyTapeCassette(wrapped, flush_interval=0.0005)
+        a.start()
+        return z, a, wrapped
     z = zoo.Zoo(kinds=(kind,)).__enter__()
     return z, z.cassettes[0], z.cassettes[0]
 
